@@ -62,7 +62,7 @@ def make_signal(rng, family=None, n=None, fs=None, f0=None):
     elif family == 'dc':
         x = base + 0.3 * _powerlaw(rng, n, 1.0) + float(rng.choice([-5.0, 3.0, 100.0]))
     elif family == 'scaled':
-        x = (base + 0.3 * _powerlaw(rng, n, 1.0)) * float(2.0 ** int(rng.integers(-10, 11)))
+        x = (base + 0.3 * _powerlaw(rng, n, 1.0)) * float(2.0 ** int(rng.choice([-40, -33, -27, -20, -10, -4, 4, 10, 20, 30])))      # (recordings in SI units: amplitudes of 1e-12 .. 1e-6 are ordinary; an absolute tolerance anywhere shows here)
     elif family == 'blips':
         # a weak rhythm with a few strong stretches of one to three cycles: short runs of bursting cycles, the kind a minimum-length rule removes
         env = np.full(n, 0.25); per = fs / f0
